@@ -1,4 +1,5 @@
-(** Model of /repo/internal/diags/position.go (as of fix commit 75918ac): [NewPositionRange],
+(** Model of /repo/internal/diags/position.go (as of the fix commits for the block header, the line-break
+    position, the character column and the anchor): [NewPositionRange],
     [appendPosition], [countLeadingSpace], [readRange], [PositionRanges.AddOffset/Lines/Len], plus
     [read_back] (what a list of position ranges spells when read from the file).
 
@@ -13,14 +14,18 @@
     - the inner loop [for gotIndex, got := range []byte(line[columnIndex-1:])] is structural recursion over
       that slice, [col] = [columnIndex+gotIndex]. *)
 From Coq Require Import List String Ascii ZArith Bool Lia.
-From PintV Require Import Common.Bytes.
+From PintV Require Import Common.Bytes Model.CommentsUnicode.
 Import ListNotations.
 Local Open Scope Z_scope.
 
 Record prange := mkp { pr_line : Z; pr_first : Z; pr_last : Z }.
 
-(** The three fields of a [yaml.Node] that [NewPositionRange] reads. *)
-Record snode := mksn { sn_value : string; sn_line : Z; sn_col : Z }.
+(** The fields of a [yaml.Node] that [NewPositionRange] reads: Value, Line, Column (in CHARACTERS, as yaml.v3
+    counts them), whether Style has the Literal or Folded bit, and Anchor. *)
+Record snode := mksn { sn_value : string; sn_line : Z; sn_col : Z; sn_block : bool; sn_anchor : string }.
+
+(** A plain node: not a block scalar, no anchor. *)
+Definition mksn0 (v : string) (l c : Z) : snode := mksn v l c false EmptyString.
 
 Inductive outcome := Ok (p : list prange) | Crash (where_ : string).
 
@@ -103,37 +108,84 @@ Definition line_step (line : string) (lineIndex col : Z) (need : ascii) (rest : 
        | Some col2 => Some (scan_line (sdrop (Z.to_nat (col2 - 1)) line) lineIndex col2 need rest offs)
        end.
 
+(** The outer loop.  [brk] is the Go variable [lineBreak]: the previous line break was consumed for a ' ' or
+    '\n' of the value and gets its position now. *)
 Fixpoint npr_loop (ls : list string) (prev_len lineIndex col minCol : Z) (need : ascii) (rest : string)
-         (offs : list prange) : outcome :=
+         (offs : list prange) (brk : bool) : outcome :=
   match ls with
   | [] => Ok offs
   | line :: more =>
-      let offs1 := match offs with
-                   | [] => offs
-                   | _ => append_position offs (lineIndex - 1) (prev_len + 1)
-                   end in
+      let offs1 := if brk then append_position offs (lineIndex - 1) (prev_len + 1) else offs in
       match line_step line lineIndex col need rest offs1 with
       | None => Crash "slice bounds out of range"
       | Some (ScanDone o) => Ok o
       | Some (ScanCont n r o) =>
           match advance n r with
           | None => Ok o
-          | Some (n', r') => npr_loop more (slen line) (lineIndex + 1) minCol minCol n' r' o
+          | Some (n', r') => npr_loop more (slen line) (lineIndex + 1) minCol minCol n' r' o (is_fold_char n)
           end
       end
   end.
 
 Definition fallback (n : snode) : list prange := [mkp (sn_line n) (sn_col n) (sn_col n)].
 
+(** [byteColumn]: [for i := range line] visits the byte index of every rune start (Go decoding: an invalid byte
+    is a rune of width 1). *)
+Fixpoint byte_column_go (starts : list nat) (column len : Z) : Z :=
+  match starts with
+  | [] => len + column
+  | i :: r => if column <=? 1 then Z.of_nat i + 1 else byte_column_go r (column - 1) len
+  end.
+
+Definition byte_column (line : string) (column : Z) : Z :=
+  byte_column_go (map fst (decode_all line)) column (slen line).
+
+Definition is_blank (c : ascii) : bool := Ascii.eqb c space || Ascii.eqb c "009"%char.
+
+(** [skipBlanks]: the loop runs while [1 <= column <= len(line)] and the byte is ' ' or '\t'. *)
+Fixpoint skip_blanks_go (bytes : string) (column : Z) : Z :=
+  match bytes with
+  | String c r => if is_blank c then skip_blanks_go r (column + 1) else column
+  | EmptyString => column
+  end.
+
+Definition skip_blanks (line : string) (column : Z) : Z :=
+  if (1 <=? column) && (column <=? slen line) then skip_blanks_go (sdrop (Z.to_nat (column - 1)) line) column
+  else column.
+
+(** The column the scan of the node's own (non-empty) line starts from: character column to byte column, then
+    past the anchor and the blanks after it. *)
+Definition first_col (line : string) (n : snode) : Z :=
+  let c := byte_column line (sn_col n) in
+  match sn_anchor n with
+  | EmptyString => c
+  | a => skip_blanks line (c + 1 + slen a)
+  end.
+
+(** How [NewPositionRange] enters the loop for the non-empty value [need :: rest]: a block scalar starts on the
+    line after its header at [minColumn]; any other scalar on its own line at [first_col] (the conversion sits
+    inside the loop after the empty-line test and applies to the node's own line only, i.e. the first iteration). *)
+Definition npr_entry (lines : list string) (n : snode) (minCol : Z) (need : ascii) (rest : string) : outcome :=
+  if sn_block n then
+    if sn_line n + 1 <=? 0 then Crash "index out of range"
+    else npr_loop (skipn (Z.to_nat (sn_line n)) lines) 0 (sn_line n + 1) minCol minCol need rest [] false
+  else if sn_line n <=? 0 then Crash "index out of range"
+  else
+    let ls := skipn (Z.to_nat (sn_line n - 1)) lines in
+    let col0 := match ls with
+                | l :: _ => if slen l =? 0 then sn_col n else first_col l n
+                | [] => sn_col n
+                end in
+    npr_loop ls 0 (sn_line n) col0 minCol need rest [] false.
+
 Definition new_position_range (lines : list string) (n : snode) (minCol : Z) : outcome :=
   match sn_value n with
   | EmptyString => Ok (fallback n)
   | String need rest =>
-      if sn_line n <=? 0 then Crash "index out of range"
-      else match npr_loop (skipn (Z.to_nat (sn_line n - 1)) lines) 0 (sn_line n) (sn_col n) minCol need rest [] with
-           | Ok [] => Ok (fallback n)
-           | r => r
-           end
+      match npr_entry lines n minCol need rest with
+      | Ok [] => Ok (fallback n)
+      | r => r
+      end
   end.
 
 (** [PositionRanges.AddOffset]. *)
@@ -229,7 +281,8 @@ Definition read_back (lines : list string) (prs : list prange) : option string :
 Definition shift_lines (pre : list string) (p : string) (lines : list string) : list string :=
   pre ++ map (fun l => (p ++ l)%string) lines.
 
-Definition shift_node (k d : Z) (n : snode) : snode := mksn (sn_value n) (sn_line n + k) (sn_col n + d).
+Definition shift_node (k d : Z) (n : snode) : snode :=
+  mksn (sn_value n) (sn_line n + k) (sn_col n + d) (sn_block n) (sn_anchor n).
 
 (** ** Rule line range (parseRule): the accumulation of [lines] over the parts of a rule mapping.
     A part is [(part.Line + offsetLine, field)] where [field] is [Some pos] for the value node of one of the
